@@ -92,6 +92,13 @@ package graphql
 //@   assigns class:executionContext.Context
 //@   ensures result1 != nil
 //@   loop 1 invariant fresh(fs) && fresh(errs)
+//@   loop 1 nopanic
+//@   loop 1 over p.Schema.extensions
+//@   opt callbacks.keep=M|string|
+// an extension whose start hook returned is registered with the finish function IT returned; one whose start
+// hook panicked registers nothing (no finish function of another extension is registered in its place)
+//@   loop 1 ensures returns("ResolveFieldDidStart") == atloop(1, returns("ResolveFieldDidStart")) ==> len(fs) == atloop(1, len(fs))
+//@   loop 1 ensures returns("ResolveFieldDidStart") == atloop(1, returns("ResolveFieldDidStart")) + 1 ==> has(fs, lastresult("Name")) && fs[lastresult("Name")] == lastresult("ResolveFieldDidStart", 1)
 
 //@ func DefaultResolveFn
 //@   trusted
@@ -218,7 +225,22 @@ package graphql
 //@   requires eCtx != nil && returnType != nil
 //@   at[C20,C18] call completePlannedValueCatchingError: assert arg4 != nil && arg4.Prev == path && typeis(arg4.Key, "int") && intval(arg4.Key) == i
 //@   at[C20] call completePlannedValueCatchingError: assert arg0 == eCtx && arg1 == returnType.OfType && arg2 == fp
-//@   loop 1 invariant fresh(completedResults)
+//@   loop 1 invariant fresh(completedResults) && len(completedResults) == i && i >= 0
+// C04: EVERY item goes through value completion against the item type (a typed nil, like any other null, is
+// judged there: null for a nullable item, an error and a propagated null for a non-null one), and what
+// completion yields is what the list holds at that index
+//@   loop[C04,C20] 1 ensures calls("completePlannedValueCatchingError") == atloop(1, calls("completePlannedValueCatchingError")) + 1 && len(completedResults) == atloop(1, len(completedResults)) + 1 && completedResults[len(completedResults)-1] == lastresult("completePlannedValueCatchingError")
+
+// the default type resolution asks every possible type's IsTypeOf with the value, the context and the field
+// information of the call it serves (C20), in the order PossibleTypes lists them, and returns the first match
+//@ func defaultResolveTypeFn
+//@   props C20 C04
+//@   nosafety
+//@   opt callback.IsTypeOf=pure
+//@   at call PossibleTypes: assert arg1 == abstractType
+//@   loop 1 over lastresult("PossibleTypes")
+//@   at call IsTypeOf: assert arg0.Value == p.Value && arg0.Context == p.Context && arg0.Info.Path == p.Info.Path && arg0.Info.FieldName == p.Info.FieldName && arg0.Info.ParentType == p.Info.ParentType && arg0.Info.ReturnType == p.Info.ReturnType
+//@   at return: assert result != nil ==> calls("IsTypeOf") >= 1 && lastresult("IsTypeOf")
 
 //@ func completePlannedObjectValue
 //@   assigns class:executionContext.Errors, class:executionContext.Context, class:FormattedError, class:M|*graphql.Object|*graphql.selectionPlan, class:graphql.selectionPlan, class:graphql.fieldPlan, class:M|string|int, class:M|string|bool, class:E|*graphql.fieldPlan, class:E|*ast.Field, class:M|string|interface, class:E|interface, class:E|string, class:graphql.fragmentGate, class:graphql.fragmentTrace, class:E|graphql.collectStep, class:F|[]graphql.collectStep, class:M|string|*graphql.fragmentTrace, class:E|graphql.fragmentSpreadEdge, class:M|string|*graphql.fragmentGate, class:E|func, class:graphql.Plan.expanding, class:M|*ast.Field|bool, class:M|*graphql.fieldPlan|bool, class:M|*graphql.fragmentTrace|bool
@@ -251,6 +273,8 @@ package graphql
 //@   requires p != nil
 //@   opt invoke.Init=maypanic
 //@   nopanic
+//@   loop 1 nopanic
+//@   loop 1 over p.Schema.extensions
 
 //@ func handleExtensionsParseDidStart
 //@   props C17 C09:safety
@@ -258,12 +282,24 @@ package graphql
 //@   requires p != nil
 //@   opt invoke.ParseDidStart=maypanic
 //@   nopanic
+//@   loop 1 nopanic
+//@   loop 1 over p.Schema.extensions
+//@   opt callbacks.keep=M|string|
+// an extension whose start hook returned is registered with the finish function IT returned; one whose start
+// hook panicked registers nothing (no finish function of another extension is registered in its place)
+//@   loop 1 ensures returns("ParseDidStart") == atloop(1, returns("ParseDidStart")) ==> len(fs) == atloop(1, len(fs))
+//@   loop 1 ensures returns("ParseDidStart") == atloop(1, returns("ParseDidStart")) + 1 ==> has(fs, lastresult("Name")) && fs[lastresult("Name")] == lastresult("ParseDidStart", 1)
+//@   loop 1 invariant fresh(fs)
+//@   opt invoke.Name=pure
 
 //@ func handleExtensionsParseDidStart$2
 //@   props C17 C09:safety
 //@   nosafety
 //@   opt callback.fn=maypanic
 //@   nopanic
+// every registered finish function is called, also after another one panicked (the panic is recovered inside the iteration)
+//@   loop 1 nopanic
+//@   loop 1 over fs
 
 //@ func handleExtensionsValidationDidStart
 //@   props C17 C09:safety
@@ -271,12 +307,24 @@ package graphql
 //@   requires p != nil
 //@   opt invoke.ValidationDidStart=maypanic
 //@   nopanic
+//@   loop 1 nopanic
+//@   loop 1 over p.Schema.extensions
+//@   opt callbacks.keep=M|string|
+// an extension whose start hook returned is registered with the finish function IT returned; one whose start
+// hook panicked registers nothing (no finish function of another extension is registered in its place)
+//@   loop 1 ensures returns("ValidationDidStart") == atloop(1, returns("ValidationDidStart")) ==> len(fs) == atloop(1, len(fs))
+//@   loop 1 ensures returns("ValidationDidStart") == atloop(1, returns("ValidationDidStart")) + 1 ==> has(fs, lastresult("Name")) && fs[lastresult("Name")] == lastresult("ValidationDidStart", 1)
+//@   loop 1 invariant fresh(fs)
+//@   opt invoke.Name=pure
 
 //@ func handleExtensionsValidationDidStart$2
 //@   props C17 C09:safety
 //@   nosafety
 //@   opt callback.finishFn=maypanic
 //@   nopanic
+// every registered finish function is called, also after another one panicked (the panic is recovered inside the iteration)
+//@   loop 1 nopanic
+//@   loop 1 over fs
 
 //@ func handleExtensionsExecutionDidStart
 //@   props C17 C09:safety
@@ -284,18 +332,33 @@ package graphql
 //@   requires p != nil
 //@   opt invoke.ExecutionDidStart=maypanic
 //@   nopanic
+//@   loop 1 nopanic
+//@   loop 1 over p.Schema.extensions
+//@   opt callbacks.keep=M|string|
+// an extension whose start hook returned is registered with the finish function IT returned; one whose start
+// hook panicked registers nothing (no finish function of another extension is registered in its place)
+//@   loop 1 ensures returns("ExecutionDidStart") == atloop(1, returns("ExecutionDidStart")) ==> len(fs) == atloop(1, len(fs))
+//@   loop 1 ensures returns("ExecutionDidStart") == atloop(1, returns("ExecutionDidStart")) + 1 ==> has(fs, lastresult("Name")) && fs[lastresult("Name")] == lastresult("ExecutionDidStart", 1)
+//@   loop 1 invariant fresh(fs)
+//@   opt invoke.Name=pure
 
 //@ func handleExtensionsExecutionDidStart$2
 //@   props C17 C09:safety
 //@   nosafety
 //@   opt callback.finishFn=maypanic
 //@   nopanic
+// every registered finish function is called, also after another one panicked (the panic is recovered inside the iteration)
+//@   loop 1 nopanic
+//@   loop 1 over fs
 
 //@ func handleExtensionsResolveFieldDidStart$2
 //@   props C17 C09:safety
 //@   nosafety
 //@   opt callback.finishFn=maypanic
 //@   nopanic
+// every registered finish function is called, also after another one panicked (the panic is recovered inside the iteration)
+//@   loop 1 nopanic
+//@   loop 1 over fs
 
 //@ func addExtensionResults
 //@   props C17 C09:safety
@@ -739,6 +802,21 @@ package graphql
 // replacement is declared with exactly the expected type (wrappers included), carries the literal's own
 // client-side value, and an earlier variable is reused only for the same literal at the same expected type
 // (the reuse key is built from the expected type itself, not from its named type).
+// which fields keep their literals (C06): every field with arguments anywhere inside a fragment definition is
+// noted by name, and the walk descends into the sub-selection of EVERY field and inline fragment (with or
+// without arguments), so a literal extracted in the operation is never left as a literal in a fragment
+//@ func normCtx.noteFragmentFields
+//@   props C06
+//@   nosafety
+//@   requires c != nil
+//@   assigns class:graphql.normCtx, class:M|string|bool
+//@   ensures old(c.keptLiteral) != nil ==> c.keptLiteral == old(c.keptLiteral) && mapkept(c.keptLiteral)
+//@   loop 1 over sel.Selections
+//@   loop 1 invariant old(c.keptLiteral) != nil ==> c.keptLiteral == old(c.keptLiteral) && mapkept(c.keptLiteral)
+//@   at call noteFragmentFields#1: assert arg0 == c && arg1 == s.SelectionSet
+//@   at call noteFragmentFields#2: assert arg0 == c && arg1 == s.SelectionSet
+//@   loop 1 ensures typeis(isel, "*ast.Field") || typeis(isel, "*ast.InlineFragment") ==> calls("noteFragmentFields") == atloop(1, calls("noteFragmentFields")) + 1
+//@   loop 1 ensures typeis(isel, "*ast.Field") && len(as(isel, "*ast.Field").Arguments) > 0 && as(isel, "*ast.Field").Name != nil ==> c.keptLiteral != nil
 //@ func normCtx.tryExtract
 //@   props C06
 //@   nosafety
